@@ -197,8 +197,10 @@ class ConsolidatorBase:
                     for ddim, cdim in zip(self.shape[: len(self.chunk_shape)], self.chunk_shape)
                 )
             else:
+                # A scalar datum (empty datum_shape) contributes a single element along the leading dimension
+                datum_len = self.datum_shape[0] if self.datum_shape else 1
                 result = (
-                    list_summands(self.datum_shape[0], self.chunk_shape[0], repeat=self._num_rows),
+                    list_summands(datum_len, self.chunk_shape[0], repeat=self._num_rows),
                     *[
                         list_summands(ddim, cdim)
                         for ddim, cdim in zip(self.shape[1 : len(self.chunk_shape)], self.chunk_shape[1:])
